@@ -100,7 +100,8 @@ pub fn gen_sched(seed: u64, o: &GenOpts) -> SchedScenario {
     };
     let is_mclmc = matches!(kind, PresetKind::DiagMclmc | PresetKind::LowRankMclmc | PresetKind::FlowMclmc);
     let num_tune = rc.range(0, 8);
-    let num_draws = rc.range(if num_tune == 0 { 1 } else { 0 }, 8);
+    // (num_tune = num_draws = 0 included: a run of zero draws has to finish with empty traces)
+    let num_draws = rc.range(0, 8);
     let so = SwarmOpts { randomise_knobs: true, ..Default::default() };
     let mut preset = gen_preset(&mut rc, kind, num_tune, num_draws, &so);
     // keep trajectories short: the interleavings of interest are between draws, not inside them
